@@ -150,12 +150,13 @@ Proof.
 Qed.
 
 (* an abrupt exit inside the locked region orphans the store lock for good *)
-Lemma exit_in_lock_orphans s p r : Inv f c s -> s_fired s = true ->
+Lemma exit_in_lock_orphans s p r : Inv f c s -> f_fin_free f = false ->
+  s_fired s = true ->
   c_plan c = Some p -> p_kind p = KExit -> p_j p = Some r ->
   dead_ownerb s (s_store s) = true.
 Proof.
-  intros HI Hf P1 P2 P3.
-  destruct (i_orphan _ _ _ HI Hf _ _ P1 P2 P3) as [w Hw].
+  intros HI Hff Hf P1 P2 P3.
+  destruct (i_orphan _ _ _ HI Hff Hf _ _ P1 P2 P3) as [w Hw].
   assert (E : s_store s = Some (OWorker w)).
   { apply (i_store_w _ _ _ HI). rewrite Hw. reflexivity. }
   rewrite E. cbn. rewrite Hw. reflexivity.
@@ -188,6 +189,38 @@ Proof.
   intros Hs sched. rewrite (stuck_forever s Hs). exact (proj1 Hs).
 Qed.
 
+(* ------------------------- with the forced release: never stuck at all *)
+Lemma always_can_move s : Inv f c s -> f_fin_free f = true ->
+  1 <= c_workers c -> s_store s <> Some ODead -> s_coll s <> Some ODead ->
+  final s = false -> can_move f c s.
+Proof.
+  intros HI Hff HW Hsd Hcd Hnf.
+  destruct (dead_ownerb s (s_store s)) eqn:D.
+  - exact (progress_dead_owner f c s HI Hff Hsd D Hnf).
+  - exact (progress f c s HI D (coll_not_dead s HI Hcd) HW Hnf).
+Qed.
+
+Lemma not_stuck s : Inv f c s -> f_fin_free f = true ->
+  1 <= c_workers c -> s_store s <> Some ODead -> s_coll s <> Some ODead ->
+  ~ stuck f c s.
+Proof.
+  intros HI Hff HW Hsd Hcd Hs.
+  apply (stuck_not_can_move s Hs).
+  apply always_can_move; try assumption. exact (proj1 Hs).
+Qed.
+
+Lemma final_freed s : final s = true -> freed_pc (s_pc s) = true.
+Proof. unfold final. destruct (s_pc s); try discriminate; reflexivity. Qed.
+
+Lemma inv_final_clean_freed s : Inv f c s -> f_fin_free f = true ->
+  s_coll s <> Some ODead -> final s = true -> clean_end c s.
+Proof.
+  intros HI Hff Hcd Hf.
+  apply inv_final_clean; try assumption.
+  - exact (i_freed _ _ _ HI Hff (final_freed s Hf)).
+  - exact (coll_not_dead s HI Hcd).
+Qed.
+
 (* ------------------------------------- what an observer of a run may see *)
 Lemma inv_observe_allowed s p : Inv f c s -> 1 <= c_workers c ->
   s_store s <> Some ODead -> s_coll s <> Some ODead ->
@@ -207,16 +240,24 @@ Proof.
         rewrite P1 in Q1. inversion Q1; subst p'. rewrite K in Q2. subst e0.
         cbn. rewrite String.eqb_refl. reflexivity.
     + destruct (inv_stuck_dead_owner s HI HW Hs); congruence.
-  - destruct Hend as [Hfin|Hs].
-    + unfold final in Hfin. destruct (s_pc s) eqn:PC; try discriminate.
+  - destruct (f_fin_free f) eqn:Hff.
+    + destruct Hend as [Hfin|Hs]; [|destruct (not_stuck s HI Hff HW Hsd Hcd Hs)].
+      rewrite (i_freed _ _ _ HI Hff (final_freed s Hfin)).
+      unfold final in Hfin. destruct (s_pc s) eqn:PC; try discriminate.
       * destruct (inv_failure_never_returns s HI Hf PC).
       * destruct (inv_raised_class s _ HI PC) as (_ & p' & Q1 & Q2).
         rewrite P1 in Q1. inversion Q1; subst p'. rewrite K in Q2. subst e.
-        destruct (p_j p) as [r|] eqn:J.
-        -- rewrite (exit_in_lock_orphans s p r HI Hf P1 K J). reflexivity.
-        -- destruct (dead_ownerb s (s_store s)); reflexivity.
-    + destruct (inv_stuck_dead_owner s HI HW Hs) as [D|D]; [|congruence].
-      rewrite D. destruct Hs as [Hnf _]. unfold final in Hnf.
-      destruct (s_pc s); try discriminate; destruct (p_j p); reflexivity.
+        reflexivity.
+    + destruct Hend as [Hfin|Hs].
+      * unfold final in Hfin. destruct (s_pc s) eqn:PC; try discriminate.
+        -- destruct (inv_failure_never_returns s HI Hf PC).
+        -- destruct (inv_raised_class s _ HI PC) as (_ & p' & Q1 & Q2).
+           rewrite P1 in Q1. inversion Q1; subst p'. rewrite K in Q2. subst e.
+           destruct (p_j p) as [r|] eqn:J.
+           ++ rewrite (exit_in_lock_orphans s p r HI Hff Hf P1 K J). reflexivity.
+           ++ destruct (dead_ownerb s (s_store s)); reflexivity.
+      * destruct (inv_stuck_dead_owner s HI HW Hs) as [D|D]; [|congruence].
+        rewrite D. destruct Hs as [Hnf _]. unfold final in Hnf.
+        destruct (s_pc s); try discriminate; destruct (p_j p); reflexivity.
 Qed.
 End Thm.
